@@ -148,6 +148,20 @@ def run(tier, seed):
     nrej = 0
     img = np.arange(6).reshape(2, 3)
     for m in invalid:
+        for small in (np.array([[7]]), np.arange(4).reshape(1, 4), np.arange(3).reshape(3, 1)):
+            for nm, fn in (("trans_orientation", detector.trans_orientation), ("image_flipping", detector.image_flipping)):
+                for mode_ in ("forward", "inverse"):
+                    nrej += 1
+                    try:
+                        fn(small, m[0], m[1], m[2], m[3], RT(mode_))
+                    except ValueError:
+                        continue
+                    except Exception as ex:
+                        v.violation("%s raised %r instead of ValueError for the invalid orientation %s on a %dx%d image" % (nm, ex, list(m), small.shape[0], small.shape[1]),
+                                    {"function": nm, "o": list(m)})
+                        continue
+                    v.violation("%s accepted the invalid orientation matrix %s for a %dx%d image (%s)" % (nm, list(m), small.shape[0], small.shape[1], mode_),
+                                {"function": nm, "o": list(m)})
         for nm, call in (("trans_orientation", lambda: detector.trans_orientation(img, *m)),
                          ("image_flipping", lambda: detector.image_flipping(img, *m)),
                          ("xy_to_detyz", lambda: detector.xy_to_detyz([0, 1], m[0], m[1], m[2], m[3], 3, 2)),
@@ -253,13 +267,13 @@ def run(tier, seed):
                     continue
                 # exact offsets (quarters): dety - cy = -r sin(eta), detz - cz = r cos(eta)
                 oy, oz = x["offy"] / 4.0, x["offz"] / 4.0
-                if abs(rad - want_r) > 1e-9 * want_r or abs(-rad * math.sin(math.radians(eta)) - oy) > 1e-7 * want_r or \
-                        abs(rad * math.cos(math.radians(eta)) - oz) > 1e-7 * want_r or not (0 <= eta <= 360):
+                if not (abs(rad - want_r) <= 1e-9 * want_r) or not (abs(-rad * math.sin(math.radians(eta)) - oy) <= 1e-7 * want_r) or \
+                        not (abs(rad * math.cos(math.radians(eta)) - oz) <= 1e-7 * want_r) or not (0 <= eta <= 360):
                     v.violation("detyz_to_eta_and_radpix(%s given as %s, centre %s) = (%r, %r); the pixel is at offset (%s, %s) from the centre, "
                                 "radius %.9f" % ([px, pz], how, [cy, cz], eta, rad, oy, oz, want_r), desc)
                     continue
                 rt = detector.eta_and_radpix_to_detyz(eta, rad, cy, cz)
-                if abs(rt[0] - px) > 1e-9 * max(1.0, abs(px)) + 1e-9 * want_r or abs(rt[1] - pz) > 1e-9 * max(1.0, abs(pz)) + 1e-9 * want_r:
+                if not (abs(rt[0] - px) <= 1e-9 * max(1.0, abs(px)) + 1e-9 * want_r) or not (abs(rt[1] - pz) <= 1e-9 * max(1.0, abs(pz)) + 1e-9 * want_r):
                     v.violation("(dety,detz) -> (eta,radius) -> (dety,detz) round trip moves the pixel %s (given as %s) to %s" %
                                 ([px, pz], how, list(map(float, rt))), desc)
             continue
@@ -268,23 +282,23 @@ def run(tier, seed):
         dety, detz = x["dety"] / x["den"], x["detz"] / x["den"]
         desc = {"eta_cos_sin": [c, s, d], "radius": rr, "centre": [cy, cz], "dety": dety, "detz": detz}
         v.case(("eta", c, s, d, rr, tuple(x["cen"])), sample=desc if len(v.samples) < 6 and rr == 7 else None)
-        if abs(rr * d - round(rr * d)) > 1e-12 and not (abs(s) == d or abs(c) == d):
+        if not (abs(rr * d - round(rr * d)) <= 1e-12) and not (abs(s) == d or abs(c) == d):
             pass
         eta, rad = detector.detyz_to_eta_and_radpix(np.array([dety, detz]), cy, cz)
         tol = 1e-9
         if not (0 <= eta <= 360):
             v.violation("detyz_to_eta_and_radpix returned eta=%r outside [0,360]" % eta, desc)
-        if abs(rad - rr) > tol * rr or abs(math.cos(math.radians(eta)) - c / d) > 1e-7 or \
-                abs(math.sin(math.radians(eta)) - s / d) > 1e-7:
+        if not (abs(rad - rr) <= tol * rr) or not (abs(math.cos(math.radians(eta)) - c / d) <= 1e-7) or \
+                not (abs(math.sin(math.radians(eta)) - s / d) <= 1e-7):
             v.violation("detyz_to_eta_and_radpix(%s) = (%r, %r); exact point has cos,sin(eta) = %d/%d, %d/%d, radius %g"
                         % ([dety, detz], eta, rad, c, d, s, d, rr), desc)
         etad = math.degrees(math.atan2(s, c)) % 360.0
         back = detector.eta_and_radpix_to_detyz(etad, rr, cy, cz)
         scale = max(1.0, abs(dety), abs(detz))
-        if abs(back[0] - dety) > 1e-9 * scale or abs(back[1] - detz) > 1e-9 * scale:
+        if not (abs(back[0] - dety) <= 1e-9 * scale) or not (abs(back[1] - detz) <= 1e-9 * scale):
             v.violation("eta_and_radpix_to_detyz(%r, %g) = %s, exact point %s" % (etad, rr, list(map(float, back)), [dety, detz]), desc)
         rt = detector.eta_and_radpix_to_detyz(eta, rad, cy, cz)
-        if abs(rt[0] - dety) > 1e-9 * scale or abs(rt[1] - detz) > 1e-9 * scale:
+        if not (abs(rt[0] - dety) <= 1e-9 * scale) or not (abs(rt[1] - detz) <= 1e-9 * scale):
             v.violation("(dety,detz) -> (eta,radius) -> (dety,detz) round trip moves the point %s to %s" %
                         ([dety, detz], list(map(float, rt))), desc)
     if v.violations:
